@@ -590,3 +590,129 @@ func TestVerifC06ProxyRefuse(t *testing.T) {
 }
 
 var _ = json.Marshal
+
+// ---------------------------------------------------------------------------
+// reported load: a multiple of 8 that never exceeds the slots in use, also when the proxy
+// re-polls after "no match" while sessions are ending. No WebRTC involved: the slots of the
+// "running sessions" are taken and returned by the script.
+
+type loadCase struct {
+	Capacity int   `json:"capacity"` // 0 = unlimited
+	Held     int   `json:"held"`     // sessions running when the poll starts
+	NoMatch  int   `json:"nomatch"`  // polls answered "no match" before the session ends
+	Release  []int `json:"release"`  // sessions ending after poll i (cyclic)
+	Acquire  []int `json:"acquire,omitempty"`
+}
+
+func runLoad(_ *testing.T, c loadCase) error {
+	if tokens == nil || int(tokens.capacity) != c.Capacity || tokens.count() != 0 {
+		tokens = newTokens(uint(c.Capacity))
+	}
+	var mu sync.Mutex
+	var violation string
+	polls := 0
+	held := 0
+	release := func(n int) {
+		for ; n > 0 && held > 0; n-- {
+			tokens.ret()
+			held--
+		}
+	}
+	u, _ := url.Parse("http://broker.test/")
+	broker = &SignalingServer{url: u, keepLocalAddresses: true, transport: rtFunc(func(req *http.Request) (*http.Response, error) {
+		body, _ := io.ReadAll(req.Body)
+		_, _, _, clients, _, _, err := messages.DecodeProxyPollRequestWithRelayPrefix(body)
+		mu.Lock()
+		defer mu.Unlock()
+		inUse := tokens.count()
+		if err != nil {
+			violation = fmt.Sprintf("invalid poll: %v", err)
+		} else if clients%8 != 0 || clients < 0 || int64(clients) > inUse {
+			violation = fmt.Sprintf("poll #%d reports Clients=%d while %d slots are in use (capacity %d): must be a multiple of 8 not exceeding the slots in use", polls+1, clients, inUse, c.Capacity)
+		} else if int64(clients) != inUse/8*8 && violation == "" {
+			// rounded DOWN to 8: reporting less than that under-reports load (statement: "a multiple of 8
+			// that does not exceed"), which is allowed; counted only
+			uLoad.Add("label:reported below floor8", 1)
+		}
+		polls++
+		i := polls - 1
+		if i < c.NoMatch {
+			// sessions end while the proxy waits for its next poll
+			if len(c.Release) > 0 {
+				release(c.Release[i%len(c.Release)])
+			}
+			return httpResp(200, `{"Status":"no match"}`), nil
+		}
+		return httpResp(200, "garbage"), nil
+	})}
+	sf := &SnowflakeProxy{Capacity: uint(c.Capacity), RelayDomainNamePattern: "$", AllowNonTLSRelay: true, ProxyType: "standalone", EventDispatcher: event.NewSnowflakeEventDispatcher(), shutdown: make(chan struct{})}
+	for i := 0; i < c.Held; i++ {
+		tokens.get()
+		held++
+	}
+	tokens.get()
+	done := make(chan struct{})
+	go func() { sf.runSession("sid-load"); close(done) }()
+	budget := time.Duration(c.NoMatch+1)*pollInterval + 20*time.Second
+	select {
+	case <-done:
+	case <-time.After(budget):
+		close(sf.shutdown)
+		return fmt.Errorf("runSession did not return within %v", budget)
+	}
+	mu.Lock()
+	v := violation
+	mu.Unlock()
+	release(held)
+	if v != "" {
+		return fmt.Errorf("%s", v)
+	}
+	if n := tokens.count(); n != 0 {
+		return fmt.Errorf("after the session ended and all running sessions were closed %d slots are still counted in use", n)
+	}
+	return nil
+}
+
+var uLoad = vstat.New("C16", "c16_load_report")
+
+func init() { vstat.Register(uLoad, runLoad) }
+
+func TestVerifC16LoadReport(t *testing.T) {
+	defer uLoad.Flush()
+	start := time.Now()
+	rapid.Check(t, func(rt *rapid.T) {
+		if time.Since(start) > time.Duration(vstat.Pick(60, 600))*time.Second {
+			rt.Skip("time budget of the real-time unit used up")
+		}
+		c := loadCase{Capacity: rapid.SampledFrom([]int{0, 9, 12, 16, 17, 24, 40}).Draw(rt, "capacity")}
+		max := c.Capacity - 1
+		if c.Capacity == 0 {
+			max = 40
+		}
+		c.Held = rapid.OneOf(rapid.IntRange(0, max), rapid.SampledFrom([]int{6, 7, 8, 15, 16})).Draw(rt, "held")
+		if c.Held > max {
+			c.Held = max
+		}
+		c.NoMatch = rapid.IntRange(0, 2).Draw(rt, "nomatch")
+		c.Release = rapid.SliceOfN(rapid.IntRange(0, 10), 1, 2).Draw(rt, "release")
+		crosses := false
+		if c.NoMatch > 0 {
+			left := c.Held + 1
+			for i := 0; i < c.NoMatch; i++ {
+				before := left / 8
+				left -= c.Release[i%len(c.Release)]
+				if left < 1 {
+					left = 1
+				}
+				if left/8 < before {
+					crosses = true
+				}
+			}
+		}
+		labels := []string{fmt.Sprintf("nomatch=%d", c.NoMatch)}
+		if crosses {
+			labels = append(labels, "load drops below a multiple of 8 between polls")
+		}
+		vstat.Run(uLoad, t, rt, c, crosses, labels, runLoad)
+	})
+}
